@@ -284,3 +284,92 @@ package analysis
 //@   nosafety
 //@   assumes [is-the-count] {C20} result == errorsOf(r.Diagnostics)
 //@   modifies nothing
+
+// ---------------------------------------------------------------- the same text gives the same diagnostics (C18):
+// the message of a diagnostic is a function of its fields - in particular it never depends on the order in which a map
+// is visited (`deterministic`: a range over a map anywhere below is a failed obligation)
+//@ func (*Parsing).Message
+//@   deterministic
+//@   nosafety
+//@   ensures [pure-text] {C18} slen(result) >= 0
+//@   modifies nothing
+//@ func (*InvalidType).Message
+//@   deterministic
+//@   nosafety
+//@   ensures [pure-text] {C18} slen(result) >= 0
+//@   modifies nothing
+//@ func (*DuplicateVariable).Message
+//@   deterministic
+//@   nosafety
+//@   ensures [pure-text] {C18} slen(result) >= 0
+//@   modifies nothing
+//@ func (*UnboundVariable).Message
+//@   deterministic
+//@   nosafety
+//@   ensures [pure-text] {C18} slen(result) >= 0
+//@   modifies nothing
+//@ func (*UnusedVar).Message
+//@   deterministic
+//@   nosafety
+//@   ensures [pure-text] {C18} slen(result) >= 0
+//@   modifies nothing
+//@ func (*TypeMismatch).Message
+//@   deterministic
+//@   nosafety
+//@   ensures [pure-text] {C18} slen(result) >= 0
+//@   modifies nothing
+//@ func (*RemainingIsNotLast).Message
+//@   deterministic
+//@   nosafety
+//@   ensures [pure-text] {C18} slen(result) >= 0
+//@   modifies nothing
+//@ func (*BadAllotmentSum).Message
+//@   deterministic
+//@   nosafety
+//@   ensures [pure-text] {C18} slen(result) >= 0
+//@   modifies nothing
+//@ func (*FixedPortionVariable).Message
+//@   deterministic
+//@   nosafety
+//@   ensures [pure-text] {C18} slen(result) >= 0
+//@   modifies nothing
+//@ func (*RedundantRemaining).Message
+//@   deterministic
+//@   nosafety
+//@   ensures [pure-text] {C18} slen(result) >= 0
+//@   modifies nothing
+//@ func (*UnknownFunction).Message
+//@   deterministic
+//@   nosafety
+//@   ensures [pure-text] {C18} slen(result) >= 0
+//@   modifies nothing
+//@ func (*BadArity).Message
+//@   deterministic
+//@   nosafety
+//@   ensures [pure-text] {C18} slen(result) >= 0
+//@   modifies nothing
+//@ func (*InvalidWorldOverdraft).Message
+//@   deterministic
+//@   nosafety
+//@   ensures [pure-text] {C18} slen(result) >= 0
+//@   modifies nothing
+//@ func (*NoAllotmentInSendAll).Message
+//@   deterministic
+//@   nosafety
+//@   ensures [pure-text] {C18} slen(result) >= 0
+//@   modifies nothing
+//@ func (*InvalidUnboundedAccount).Message
+//@   deterministic
+//@   nosafety
+//@   ensures [pure-text] {C18} slen(result) >= 0
+//@   modifies nothing
+//@ func (*EmptiedAccount).Message
+//@   deterministic
+//@   nosafety
+//@   ensures [pure-text] {C18} slen(result) >= 0
+//@   modifies nothing
+//@ func (*UnboundedAccountIsNotLast).Message
+//@   deterministic
+//@   nosafety
+//@   ensures [pure-text] {C18} slen(result) >= 0
+//@   modifies nothing
